@@ -282,6 +282,15 @@ for _p in ("C01", "C13", "C02"):
     PLANS[_p]["rule"] += ("; plus the chain world (root ceremonies, rotations, crafted successors): verify_root's two quorum rules are instances "
                           "of this property - a successor short of either rule must be refused with a signature error, one that meets both accepted")
 
+PLANS["C18"]["stages"].append({"world": "threads", "runs": {"quick": 250, "thorough": 10000}})
+PLANS["C18"]["rule"] += ("; plus the thread world with the storage theme: several callers sign different files at once, some of them malformed - a signing "
+                         "that fails leaves its own file as it was, whatever the others do")
+PLANS["C12"]["stages"].append({"world": "storage", "runs": {"quick": 300, "thorough": 15000}})
+PLANS["C04"]["stages"].append({"world": "cli", "runs": {"quick": 40, "thorough": 1200}})
+PLANS["C03"]["stages"].append({"world": "cli", "runs": {"quick": 40, "thorough": 1200}})
+PLANS["C04"]["rule"] += ("; plus the CLI world: verify-metadata over root pairs and odd argument vectors (three and more files) - status 0 only for a pair "
+                         "the chain rules accept")
+
 for _p in ("C08", "C11"):
     PLANS[_p]["stages"].append({"world": "cli", "runs": {"quick": 40, "thorough": 1500}})
     PLANS[_p]["rule"] += ("; plus the CLI world on the real file system (sign-artifacts on files reached through symlinked directories and '..', "
